@@ -238,7 +238,8 @@ class C20(Check):
                    "(i) the second-order right-hand side ode_and_forwardforward is compared with the total derivative d/dtheta_b [J S_a + G_a] "
                    "from the Expr differentiator -- z3 shows it equals exactly the two implemented terms and differs from the full derivative "
                    "whenever mixed terms are non-zero (known finding, see known_findings.json); (ii) the assembly of hessian(theta) from the "
-                   "integrated second-order system is compared with the second derivative of the square cost.")
+                   "integrated second-order system is compared with the second derivative of the square cost.  The sensitivity system behind jtj must start "
+                   "from the object's current initial state with zero sensitivities (also after an initial-value evaluation moved that state).")
     stubs = ["scipy.integrate.ode contract, flow components uninterpreted", "scipy.sparse.kron/eye -> dense numpy (no object dtype in scipy.sparse)", "np.linalg.eig fixed"]
     assumptions = ["integrated first/second-order sensitivities are the derivatives of the solution (ODE theory)", "floats as reals"]
 
